@@ -27,6 +27,7 @@ type guardDecl struct {
 type heldDecl struct {
 	typ, method, lock, mode string
 	during                  bool // lock is held while the function-typed argument runs
+	returns                 bool // returns_held: the function returns with the lock held and hands its release to a closure it returns
 }
 
 type orderDecl struct{ before, after string } // "Type.suffix"
@@ -54,7 +55,7 @@ func parseLockClauses(pc *PkgContracts, clauses []rawClause) error {
 				lock = ""
 			}
 			ls.guards = append(ls.guards, guardDecl{typ: parts[0], path: parts[1:], lock: lock, line: c.line})
-		case "requires_held", "holds_during":
+		case "requires_held", "holds_during", "returns_held":
 			if len(f) < 2 {
 				return fmt.Errorf("%s:%d: %s <Type.method> <lock suffix or .> [R|W]", pc.Dir, c.line, c.kw)
 			}
@@ -71,7 +72,7 @@ func parseLockClauses(pc *PkgContracts, clauses []rawClause) error {
 			if len(f) > 2 {
 				mode = f[2]
 			}
-			ls.held = append(ls.held, heldDecl{typ: tm[0], method: tm[1], lock: lock, mode: mode, during: c.kw == "holds_during"})
+			ls.held = append(ls.held, heldDecl{typ: tm[0], method: tm[1], lock: lock, mode: mode, during: c.kw == "holds_during", returns: c.kw == "returns_held"})
 		case "lock_order":
 			// lock_order A.suffix < B.suffix  (A must be taken before B)
 			if len(f) != 3 || f[1] != "<" {
@@ -159,6 +160,7 @@ type lockChecker struct {
 	fname           string
 	ord             map[string]int
 	deferred        []func(st *lockState)
+	handedOff       map[string]bool // lock keys ("Type.suffix") this function returns with held by contract (returns_held)
 }
 
 // localAliases: expression path -> local variable that holds the same pointer
@@ -421,7 +423,7 @@ func (lc *lockChecker) call(call *ast.CallExpr, st *lockState) {
 				}
 				if n != nil {
 					for _, h := range lc.spec.held {
-						if h.typ != n.Obj().Name() || h.method != fn.Name() {
+						if h.typ != n.Obj().Name() || h.method != fn.Name() || h.returns {
 							continue
 						}
 						base := exprPath(se.X)
@@ -731,13 +733,22 @@ func runLockset(prog *Prog, pf *PropFile) []*Obligation {
 					continue
 				}
 				localAliases = map[string]string{}
-				lc := &lockChecker{prog: prog, pkg: pkg, spec: pc.Locks, fname: key, ord: map[string]int{}}
+				lc := &lockChecker{prog: prog, pkg: pkg, spec: pc.Locks, fname: key, ord: map[string]int{}, handedOff: map[string]bool{}}
+				if r := obj.Type().(*types.Signature).Recv(); r != nil {
+					if n := namedOf(r.Type()); n != nil {
+						for _, h := range pc.Locks.held {
+							if h.returns && h.typ == n.Obj().Name() && h.method == fd.Name.Name {
+								lc.handedOff[n.Obj().Name()+"."+h.lock] = true
+							}
+						}
+					}
+				}
 				st := lockState{}
 				// locks the contract says are held on entry
 				if r := obj.Type().(*types.Signature).Recv(); r != nil && fd.Recv != nil && len(fd.Recv.List) == 1 && len(fd.Recv.List[0].Names) == 1 {
 					if n := namedOf(r.Type()); n != nil {
 						for _, h := range pc.Locks.held {
-							if h.typ == n.Obj().Name() && h.method == fd.Name.Name && !h.during {
+							if h.typ == n.Obj().Name() && h.method == fd.Name.Name && !h.during && !h.returns {
 								base := fd.Recv.List[0].Names[0].Name
 								lp := base
 								if h.lock != "" {
@@ -750,7 +761,7 @@ func runLockset(prog *Prog, pf *PropFile) []*Obligation {
 				}
 				if fd.Recv == nil {
 					for _, h := range pc.Locks.held {
-						if h.typ == "" && h.method == fd.Name.Name && !h.during {
+						if h.typ == "" && h.method == fd.Name.Name && !h.during && !h.returns {
 							st.held = append(st.held, heldLock{h.lock, h.lock, h.mode, true})
 						}
 					}
@@ -781,6 +792,9 @@ func (lc *lockChecker) checkLeaks(st *lockState, pos token.Pos) {
 	}
 	leaked := ""
 	for _, h := range st.held {
+		if lc.handedOff[h.key] {
+			continue // returns_held: released by the closure the function returns
+		}
 		if h.entry || lc.deferredUnlocks[h.path] {
 			continue
 		}
